@@ -315,6 +315,25 @@ class Session:
                 snap["selfcheck"] = "%s: %s" % (type(e).__name__, str(e)[:120])
         return snap
 
+    def pointers(self):
+        """wave 8: the WHOLE pointer structure, not only what is reachable from the seed: for every node object the
+        session ever registered (nodes of the tree, detached subtrees, garbage) its parent pointer, its child list,
+        its edge's head and tail, edge length and taxon; plus the tree's seed and rooting flag.  Compared before/after
+        an operation the library REFUSED (clause: a refused operation changes nothing)."""
+        name = {id(n): i for i, n in self.reg.items()}
+
+        def nm(x):
+            return None if x is None else name.get(id(x), -1)
+        rows = []
+        for i in sorted(self.reg):
+            n = self.reg[i]
+            e = n._edge
+            rows.append([i, nm(n._parent_node), [nm(c) for c in n._child_nodes[:MAXN]],
+                         nm(None if e is None else e._head_node), nm(None if e is None else e.tail_node),
+                         None if e is None else repr(e.length),
+                         None if n.taxon is None else self.taxon_index.get(id(n.taxon), -1)])
+        return {"seed": nm(self.tree._seed_node), "rooted": self.tree._is_rooted, "nodes": rows}
+
     def enc_dump(self):
         """Tree.bipartition_encoding as [(owner node id, leafset mask)] in list order; the owner of a Bipartition
         object is the node whose edge carries it (-1: no registered node does)"""
@@ -578,6 +597,16 @@ KINDS = [
     ("RemoveChild", 6), ("NewChild", 5), ("InsertNewChild", 3), ("AddChild", 4), ("InsertChild", 4),
     ("SetChildNodes", 2), ("SetParentNode", 3),
     ("PruneTaxaLabels", 2), ("RetainTaxaLabels", 2), ("ExtractWithLabels", 1), ("ExtractWithoutLabels", 1),
+    ("Refused", 12),
+]
+
+# wave 8: histories aimed at the error paths: about every second operation is one the API must refuse (gen_refused);
+# the others are operations that walk parent pointers / re-attach detached subtrees, so that damage a refused call
+# left behind shows in the NEXT operation as well
+REFUSED_KINDS = [
+    ("Refused", 30), ("PruneSubtree", 5), ("ReseedAt", 5), ("RerootAtNode", 3), ("RerootAtEdge", 3), ("ToOutgroup", 3),
+    ("RemoveChild", 6), ("AddChild", 5), ("InsertChild", 3), ("SetParentNode", 3), ("EdgeCollapse", 3), ("Encode", 3),
+    ("SuppressUnifurcations", 2), ("NewChild", 2), ("CollapseBasal", 1), ("PruneTaxa", 2),
 ]
 
 # histories over a label pool with collisions: mostly the label-based selectors, a few structural ops in between
@@ -585,7 +614,7 @@ KINDS = [
 LABEL_KINDS = [
     ("PruneTaxaLabels", 8), ("RetainTaxaLabels", 8), ("ExtractWithLabels", 5), ("ExtractWithoutLabels", 5),
     ("PruneTaxa", 1), ("RetainTaxa", 1), ("ReseedAt", 2), ("SuppressUnifurcations", 1), ("NewChild", 3),
-    ("PruneSubtree", 1), ("Ladderize", 1), ("Encode", 1), ("ShuffleTaxa", 1), ("RemoveChild", 1),
+    ("PruneSubtree", 1), ("Ladderize", 1), ("Encode", 1), ("ShuffleTaxa", 1), ("RemoveChild", 1), ("Refused", 1),
 ]
 
 
@@ -597,8 +626,79 @@ UB_KINDS = [
     ("FilterLeafNodes", 2), ("PruneLeavesWithoutTaxa", 2), ("PruneNodes", 2), ("PruneTaxa", 3), ("RetainTaxa", 3),
     ("RandomlyReorient", 2),
     ("Encode", 5), ("SetRooted", 6), ("SetUnrooted", 1), ("Deroot", 1), ("NewChild", 3), ("RemoveChild", 3),
-    ("EdgeCollapse", 2), ("CollapseBasal", 1),
+    ("EdgeCollapse", 2), ("CollapseBasal", 1), ("Refused", 3),
 ]
+
+
+def detached_nodes(sess, live):
+    """ids of the registered nodes inside the clean detached subtrees (the session's "other trees")"""
+    name = {id(n): i for i, n in sess.reg.items()}
+    out = []
+    for d in sess.detached:
+        stack = [sess.reg[d]]
+        while stack and len(out) < 200:
+            n = stack.pop()
+            i = name.get(id(n))
+            if i is not None and i not in live and i not in out:
+                out.append(i)
+                stack.extend(n._child_nodes)
+    return out
+
+
+def gen_refused(rng, sess, spec):
+    """wave 8: an operation the API must REFUSE (a documented error on the argument): remove_child with a node that
+    is not a child of the receiver (a child of another node / the receiver itself / the receiver's parent / the seed /
+    a node of a detached subtree, i.e. of another tree), Edge.collapse of a leaf edge, to_outgroup_position /
+    prune_subtree / reroot_at_edge of the seed (seed edge), add_child of the node itself or of its own parent,
+    prune_nodes of a list that starts with the seed.  None when the state offers no such argument."""
+    nodes = trees.preorder(spec)
+    ids = [n["id"] for n in nodes]
+    by = {n["id"]: n for n in nodes}
+    pm = parent_map(spec)
+    seed = spec["id"]
+    nonseed = [i for i in ids if pm[i] is not None]
+    leaves = [i for i in nonseed if not by[i]["kids"]]
+    ub, su = rng.random() < 0.3, rng.random() < 0.5
+    r = rng.random()
+    if r < 0.6:
+        sub = rng.choice(["other", "other", "other", "self", "parent", "seed", "foreign", "foreign"])
+        if sub == "other":
+            c = rng.choice(nonseed) if nonseed else None
+            cand = [i for i in ids if c is not None and i != pm[c] and i != c]
+            if not cand:
+                return None
+            # receivers that make the damage matter: the node's sibling, its grandparent, its own child, anything
+            near = [i for i in cand if pm[i] == pm[c] or pm[pm[c]] == i or pm[i] == c]
+            return ["RemoveChild", rng.choice(near) if near and rng.random() < 0.6 else rng.choice(cand), c, su]
+        if sub == "self":
+            x = rng.choice(ids)
+            return ["RemoveChild", x, x, su]
+        if sub == "parent":
+            if not nonseed:
+                return None
+            x = rng.choice(nonseed)
+            return ["RemoveChild", x, pm[x], su]
+        if sub == "seed":
+            return ["RemoveChild", rng.choice(ids), seed, su]
+        det = detached_nodes(sess, set(ids))
+        if not det:
+            return None
+        return ["RemoveChild", rng.choice(ids), rng.choice(det), su]
+    if r < 0.68:
+        return ["EdgeCollapse", rng.choice(leaves), B(rng)] if leaves else None
+    if r < 0.76:
+        return ["ToOutgroup", seed, ub, su]
+    if r < 0.84:
+        return ["PruneSubtree", seed, ub, su]
+    if r < 0.88:
+        return ["RerootAtEdge", seed, rng.choice(LENS), rng.choice(LENS), ub, su]
+    if r < 0.96:
+        x = rng.choice(ids)
+        if pm[x] is not None and B(rng):
+            return ["AddChild", x, pm[x]]
+        return ["AddChild", x, x]
+    rest = rng.sample(nonseed, min(len(nonseed), rng.randint(0, 2)))
+    return ["PruneNodes", [seed] + rest, B(rng), ub, su]
 
 
 def gen_op(rng, sess, spec, kinds=KINDS, allow_leaf_reseed=False, p_ub=0.3):
@@ -616,6 +716,8 @@ def gen_op(rng, sess, spec, kinds=KINDS, allow_leaf_reseed=False, p_ub=0.3):
     ub = rng.random() < p_ub
     su = rng.random() < 0.6
     cb = rng.random() < 0.6
+    if k == "Refused":
+        return gen_refused(rng, sess, spec)
     if k == "ReseedAt":
         pool = ids if allow_leaf_reseed else (internal or ids[:1])
         return [k, rng.choice(pool), ub, cb, su]
@@ -821,6 +923,7 @@ def observe(case):
                     sess.tree.encode_bipartitions(suppress_unifurcations=False, collapse_unrooted_basal_bifurcation=False)
                 except Exception:
                     wants_ub = False
+            ptrs0 = sess.pointers()
             try:
                 with core.alarm(10):
                     aux = sess.apply(op)
@@ -831,6 +934,10 @@ def observe(case):
             snap = sess.snapshot()
             snap["err"] = err
             snap["aux"] = aux
+            if err is not None:
+                # a call that raised: the whole pointer structure before and after it (every registered node, also
+                # the ones no longer / not reachable from the seed)
+                snap["ptrs_before"], snap["ptrs"] = ptrs0, sess.pointers()
             if err is None and wants_ub and snap["tree"] is not None and not snap["problems"]:
                 try:
                     snap["bip"] = sess.bip_check()
@@ -902,7 +1009,8 @@ def documented(op, err, before):
         return any(n["len"] is None for n in trees.preorder(before) if n["id"] != before["id"]) \
             or len(trees.leaves(before)) < 2
     if k in ("AddChild", "NewChild") and err == "AssertErr":
-        return op[1] == op[2] if k == "AddChild" else False
+        # "assert node is not self" / "assert self._parent_node is not node"
+        return (op[1] == op[2] or (op[1] in pm and pm[op[1]] == op[2])) if k == "AddChild" else False
     if k == "PruneNodes" and err == "OtherErr":
         return before["id"] in op[1]
     if k == "ShuffleTaxa" and err == "AssertErr":
@@ -911,6 +1019,53 @@ def documented(op, err, before):
     if k == "RandomlyReorient" and err == "AssertErr":
         return len(by) == 1                                  # to_outgroup_position on the only node
     return False
+
+
+def refusal(op, before):
+    """wave 8: argument classes that the API refuses AT ENTRY with a documented error (explicit raise / assert on the
+    argument before anything is written): (expected exception, class name) or None.  For these the oracle demands the
+    exception AND an unchanged pointer structure (every registered node)."""
+    k = op[0]
+    by = {n["id"]: n for n in trees.preorder(before)}
+    pm = parent_map(before)
+    seed = before["id"]
+    if k == "RemoveChild" and op[1] in by and op[2] not in [c["id"] for c in by[op[1]]["kids"]]:
+        c = op[2]
+        sub = ("self" if c == op[1] else "own-parent" if pm.get(op[1]) == c else "seed" if c == seed else
+               "child-of-another-node" if c in by else "node-not-in-tree")
+        return "ValueErr", "remove_child-non-child:" + sub
+    if k == "EdgeCollapse" and op[1] in by and op[1] != seed and not by[op[1]]["kids"]:
+        return "ValueErr", "edge-collapse-leaf"
+    if k == "ToOutgroup" and op[1] == seed:
+        return "AssertErr", "to_outgroup-seed"
+    if k == "PruneSubtree" and op[1] == seed:
+        return "TypeErr", "prune_subtree-seed"
+    if k == "RerootAtEdge" and op[1] == seed:
+        return "AttrErr", "reroot_at_edge-seed-edge"
+    if k == "AddChild" and op[1] in by and (op[2] == op[1] or pm.get(op[1]) == op[2]):
+        return "AssertErr", "add_child-" + ("self" if op[2] == op[1] else "own-parent")
+    if k == "PruneNodes" and op[1] and op[1][0] == seed:
+        return "OtherErr", "prune_nodes-seed-first"
+    return None
+
+
+def ptr_diff(a, b):
+    """what differs between two Session.pointers() dumps, as text"""
+    out = []
+    for f in ("seed", "rooted"):
+        if a[f] != b[f]:
+            out.append("tree.%s %s -> %s" % (f, a[f], b[f]))
+    ra = {r[0]: r for r in a["nodes"]}
+    rb = {r[0]: r for r in b["nodes"]}
+    fields = ("", "_parent_node", "_child_nodes", "edge.head_node", "edge.tail_node", "edge.length", "taxon")
+    for i in sorted(set(ra) | set(rb)):
+        if i not in ra or i not in rb:
+            out.append("node %d %s" % (i, "created" if i not in ra else "no longer registered"))
+            continue
+        for j in range(1, 7):
+            if ra[i][j] != rb[i][j]:
+                out.append("node %d %s %s -> %s" % (i, fields[j], ra[i][j], rb[i][j]))
+    return out
 
 
 def documented_extract(op, err, before, labels, cs):
@@ -1083,6 +1238,17 @@ def oracle_steps(case, obs, probe_key=None):
                         "inside reseed_at deleted %s before the outgroup was repositioned: %s"
                         % (where, "the outgroup node" if "outgroup-is" in oc else "the outgroup's parent (the seed)", what),
                         "%s:%s" % (oc, outcome_tag(snap)))
+        # wave 8: a refused operation changes nothing (the whole pointer structure, every registered node)
+        rf = None if probe_key else refusal(op, before)
+        if rf:
+            if snap["err"] is None:
+                return ("%s the call returned although its argument is in the refused class %s (documented: %s)"
+                        % (where, rf[1], rf[0]), "not-refused:%s:%s" % (name, rf[1]))
+            d = ptr_diff(snap["ptrs_before"], snap["ptrs"]) if snap.get("ptrs") is not None else []
+            if d:
+                return ("%s the call was refused (%s) but did not leave the objects as they were: %s"
+                        % (where, snap["aux"].get("msg"), "; ".join(d[:4])),
+                        "refused-op-changed-state:%s:%s" % (name, rf[1]))
         if snap["tree"] is None:
             return ("%s: %s" % (where, snap["problems"][0]),
                     ("%s:%s" % (probe_key, outcome_tag(snap))) if probe_key else "cyclic:" + key)
@@ -1341,10 +1507,16 @@ def c_case(case, obs):
         incr = op[0] == "SuppressUnifurcations" and len(op) > 1 and bool(op[1])
         bo = snap.get("bipobj")
         c_obj = "None" if bo is None else "(Some ([%s], %s))" % (";".join(zflat(e) for e in bo["edges"]), zflat(bo["enc"]))
-        steps.append("(mkStep %s %s %s %s %s %s %s)" % (c_op(op, snap["aux"], case["ntaxa"]),
-                                                        "None" if snap["err"] is None else "(Some %s)" % snap["err"],
-                                                        zflat(enc_tree(snap["tree"])), ob(snap["rooted"]),
-                                                        cbool(incr), c_enc, c_obj))
+        # wave 8: after a call that raised, every registered node's parent pointer and child list (all ids are
+        # registered ones: otherwise no claim)
+        pt = snap.get("ptrs")
+        c_ptrs = "None"
+        if pt is not None and all(r[1] != -1 and -1 not in r[2] for r in pt["nodes"]):
+            c_ptrs = "(Some [%s])" % ";".join("(%d,(%d,%s))" % (r[0], oenc(r[1]), zflat(r[2])) for r in pt["nodes"])
+        steps.append("(mkStep %s %s %s %s %s %s %s %s)" % (c_op(op, snap["aux"], case["ntaxa"]),
+                                                           "None" if snap["err"] is None else "(Some %s)" % snap["err"],
+                                                           zflat(enc_tree(snap["tree"])), ob(snap["rooted"]),
+                                                           cbool(incr), c_enc, c_obj, c_ptrs))
     g, tl, ogf = library_variant()
     return "(mkCase (mkVariants %s %s %s) %s %s %s)" % (cbool(g), cbool(tl), cbool(ogf), trees.c_tree(case["init"]),
                                                        ob(case["rooted"]), clist(steps))
@@ -1397,6 +1569,15 @@ def ub_case(rng, max_leaves=8, max_ops=4, rooted=Ellipsis):
     if rooted is Ellipsis:
         rooted = rng.choice([None, True, False])
     return gen_history(rng, spec, rooted, n + rng.randint(0, 1), rng.randint(1, max_ops), kinds=UB_KINDS, p_ub=0.85)
+
+
+def refused_case(rng, max_leaves=8, max_ops=6):
+    """wave 8: a history in which about half of the operations are refused ones (REFUSED_KINDS)"""
+    n = rng.randint(2, max_leaves)
+    spec = trees.gen_tree(rng, n, lengths=rng.choice(["dyadic", "int", "unit", "none", "mixed"]),
+                          unifurcations=rng.choice([0.0, 0.0, 0.2]), internal_labels=0.0)
+    return gen_history(rng, spec, rng.choice([None, True, False]), n + rng.randint(0, 1), rng.randint(2, max_ops),
+                       kinds=REFUSED_KINDS, allow_leaf_reseed=rng.random() < 0.2)
 
 
 def probe_cases():
@@ -1460,6 +1641,20 @@ def alphabet(spec, ntaxa, detached):
             ops.append(["SetParentNode", i, None])
         for d in detached:
             ops.append(["AddChild", i, d])
+    # wave 8: refused calls (see gen_refused): one wrong receiver per node, the node itself, the seed-only refusals
+    seed = spec["id"]
+    for i in ids:
+        if pm[i] is not None:
+            wrong = [p for p in ids if p != pm[i] and p != i]
+            if wrong:
+                ops.append(["RemoveChild", wrong[(i + len(ids)) % len(wrong)], i, False])
+            ops.append(["RemoveChild", i, pm[i], True])
+    ops.append(["RemoveChild", seed, seed, False])
+    ops.append(["PruneSubtree", seed, False, True])
+    ops.append(["ToOutgroup", seed, False, True])
+    ops.append(["AddChild", seed, seed])
+    for d in detached[:1]:
+        ops.append(["RemoveChild", seed, d, False])
     for x in range(ntaxa):
         ops.append(["PruneTaxa", [x], False, True, True, False])
         ops.append(["RetainTaxa", [y for y in range(ntaxa) if y != x], False, True])
@@ -1520,7 +1715,8 @@ def search(ctx, budget_s):
     rng = random.Random(ctx.seed + 77)
     n = 0
     while time.time() - t0 < budget_s and n < 20000:
-        case = ub_case(rng) if n % 4 == 2 else random_case(rng, 12, 12, label_pool=(n % 3 == 1) or None)
+        case = (ub_case(rng) if n % 4 == 2 else refused_case(rng) if n % 4 == 0 else
+                random_case(rng, 12, 12, label_pool=(n % 3 == 1) or None))
         obs = observe(case)
         v = oracle(case, obs)
         n += 1
@@ -1567,12 +1763,14 @@ def run(tier, seed, replay=None):
         cases += [random_case(ctx.rng, 9, 8) for _ in range(550)]
         cases += [random_case(ctx.rng, 30, 25) for _ in range(50)]
         cases += [ub_case(ctx.rng, rooted=(None, True, False)[i % 3]) for i in range(150)]
+        cases += [refused_case(ctx.rng) for _ in range(150)]
         small = list(small_scope_cases(3, 2, ctx.rng, per_state=None))
         cases += ctx.rng.sample(small, 800)
     else:
         cases += [random_case(ctx.rng, 10, 10) for _ in range(4000)]
         cases += [random_case(ctx.rng, 30, 25) for _ in range(500)]
         cases += [ub_case(ctx.rng, 10, 6, rooted=(None, True, False)[i % 3]) for i in range(3000)]
+        cases += [refused_case(ctx.rng, 10, 8) for _ in range(2000)]
         cases += list(small_scope_cases(4, 2, ctx.rng, per_state=None))
         cases += [c for c in small_scope_cases(5, 2, ctx.rng, per_state=9) if len(trees.leaves(c["init"])) == 5]
         cases += list(small_scope_cases(3, 3, ctx.rng, per_state=11))
@@ -1595,5 +1793,12 @@ def run(tier, seed, replay=None):
                            "sensitive or not) and use the label-based selectors prune/retain_taxa_with_labels, "
                            "extract_tree_with(out)_taxa_labels (oracle: leaf taxa change exactly by ALL taxa the labels "
                            "designate under the namespace's rule; model: the taxon-based op on those taxa); pointer dump, rooting flag and exception class "
-                           "compared with the model after every step; non-trivial = >=2 executed ops on a tree with >=4 nodes; "
+                           "compared with the model after every step; wave 8: about 8% of the random operations, half of the "
+                           "operations of 150 (thorough 2000) dedicated histories and several letters of the small-scope alphabet are "
+                           "calls the API must REFUSE (remove_child of a non-child: child of another node / the receiver itself / its "
+                           "parent / the seed / a node of a detached subtree; Edge.collapse of a leaf edge; to_outgroup_position / "
+                           "prune_subtree / reroot_at_edge of the seed; add_child of the node itself / its parent; prune_nodes starting "
+                           "with the seed): the documented exception is caught, every registered node's parent pointer, child list, "
+                           "edge head/tail, length and taxon are compared before/after (oracle) and with the heap the model's error "
+                           "outcome carries, and the history goes on; non-trivial = >=2 executed ops on a tree with >=4 nodes; "
                            "distinct by full case content")
